@@ -41,7 +41,7 @@ def C06():
                       "RTF reader interprets \\paperw/\\paperh/\\marg* as the specification says (L4)"],
         assumptions=["RenderPage abstracts each callee's chunk sequence by one marker chunk (render only appends / extends); the 2-level page_by variant "
                      "of RenderPage runs in the thorough tier only (quick: no page_by headings and 1 level)",
-                     "RTFFigureService.encode_figure ('' without figures) is assumed; the multi-section page loop (_encode_multi_section) is not yet under "
+                     "RTFFigureService.encode_figure: unit EncodeFigure (C16); the multi-section page loop (_encode_multi_section) is not yet under "
                      "contract in this check; figure documents: unit FigureOnly"],
         replayers={"services/document_service.py::RTFDocumentService.generate_page_break": R.replay_page_geometry,
                    "rtf/syntax.py::RTFSyntaxGenerator.generate_page_settings": R.replay_page_geometry,
@@ -134,18 +134,19 @@ def C16():
     from contracts import replayers as R
     return Property(
         "C16",
-        units=[ContractUnit(u) for u in UNITS] + [_figure_doc_unit()] + TABLES,
+        units=[ContractUnit(u) for u in UNITS] + [_figure_doc_unit()] + _figure_extra_units() + TABLES,
         level="proof",
         technique="loop invariant on the 80-character windows of data.hex(); byte-layout postconditions for PNG/JPEG headers; token view of the "
                   "picture group; exhaustive suffix table; per-page obligations on the real _encode_figure_only: page i embeds figure i with its own "
                   "format and the i-th width / height, one figure per page, a page break exactly between consecutive figures, title / footnote / "
-                  "source on exactly the selected pages",
+                  "source on exactly the selected pages; the same per-figure obligations on RTFFigureService.encode_figure (figure beside a table); "
+                  "_read_image_data opens the given path 'rb' and returns the whole read; validate_figure_data keeps the path list in the given order",
         trusted_base=[SOLVERS, ENGINE, "bytes.hex / str slicing / struct.unpack big-endian (assumed, DESIGN 1.7)",
                       "concatenating consecutive windows covering [0, L) yields the string (fact about strings)"],
-        assumptions=["FigureOnly uses rtf_read_figure through its contract (unit ReadFigure: one (bytes, format) per path, in order); open(path,'rb').read() "
-                     "and Path.exists are assumed file-system contracts; the appended parts of _encode_figure_only are observed through a handler on "
+        assumptions=["FigureOnly / EncodeFigure use rtf_read_figure through its contract (unit ReadFigure: one (bytes, format) per path, in order); "
+                     "open(path,'rb') / f.read() and Path.exists are assumed file-system contracts (unit ReadImageData binds path, mode and the whole-file read); the appended parts of _encode_figure_only are observed through a handler on "
                      "parts.append (the function only appends)"],
-        replayers={"services/figure_service.py::RTFFigureService": R.replay_figures, "encoding/unified_encoder.py::UnifiedRTFEncoder._encode_figure_only": R.replay_figure_document, "figure.py::": R.replay_figure_document},
+        replayers={"services/figure_service.py::RTFFigureService": R.replay_figures, "encoding/unified_encoder.py::UnifiedRTFEncoder._encode_figure_only": R.replay_figure_document, "figure.py::": R.replay_figure_document, "figure.py::_read_image_data": R.replay_figures, "input.py::": R.replay_validators},
         design_ref="4/C16, A19",
     )
 
@@ -153,6 +154,7 @@ def C16():
 def C19():
     import contracts.validators as V
     import contracts.validators_extra as VX
+    import contracts.validators_doc as VD
     from contracts import replayers as R
 
     class _Lazy(ContractUnit):
@@ -171,15 +173,15 @@ def C19():
             return out
     return Property(
         "C19",
-        units=[ValidatorUnits()] + [ContractUnit(u) for u in VX.UNITS],
+        units=[ValidatorUnits()] + [ContractUnit(u) for u in VX.UNITS] + [ContractUnit(u) for u in VD.UNITS],
         level="proof",
         technique="exceptional postconditions on the real validators: returns iff all elements legal (loop invariants over flat / jagged nested "
                   "values), raises only subclasses of ValueError; attribute existence taken from the real classes",
         trusted_base=[SOLVERS, ENGINE, "pydantic runs the registered validators on construction and wraps ValueError into ValidationError (L1)"],
-        assumptions=["RTFFigure.validate_figure_data, the df / figure exclusivity part of RTFDocument.validate_column_names and "
-                     "the decorator-coverage lemma (which validator pydantic runs for which field) are not yet under contract in this check",
+        assumptions=["the decorator-coverage lemma (which validator pydantic runs for which field) is not under contract in this check; "
+                     "validate_column_names uses _validate_section_columns through its contract (unit ValidateSectionColumns)",
                      "empty vectors ([]) are outside the property's domain (validate_positive_value indexes v[0])"],
-        replayers={"attributes.py::": R.replay_validators, "input.py::": R.replay_validators},
+        replayers={"attributes.py::": R.replay_validators, "input.py::": R.replay_validators, "encode.py::": R.replay_validators},
         design_ref="4/C19, A22",
     )
 
@@ -304,6 +306,12 @@ def _prepare_unit():
 def _figure_doc_unit():
     from contracts.figure_doc import FigureOnly
     return ContractUnit(FigureOnly())
+
+
+def _figure_extra_units():
+    from contracts.figure_doc import EncodeFigure, ReadImageData
+    from contracts.validators_doc import ValidateFigureData
+    return [ContractUnit(EncodeFigure()), ContractUnit(ReadImageData()), ContractUnit(ValidateFigureData())]
 
 
 def _multi_section_unit():
@@ -625,8 +633,11 @@ MANIFEST_TEXT = {
         "text": "Proofs on the real figure service: the payload is the consecutive 80-character windows of data.hex() joined by newlines "
                 "(any length), PNG/JPEG pixel sizes are the big-endian header words at the specified offsets with all reads in bounds and the "
                 "JPEG scan terminating, the picture group carries blip keyword by format, pixel size, floor(inches*1440) goals, balanced "
-                "braces; positional size lookup reuses the last value.",
-        "note": "bytes.hex, slicing and struct.unpack are assumed contracts; the per-page loop of figure documents is named as not yet under contract.",
+                "braces; positional size lookup reuses the last value. Per-figure obligations on the real page loops (_encode_figure_only for figure "
+                "documents, RTFFigureService.encode_figure beside a table): figure i carries the bytes and format read from path i and the i-th sizes, one "
+                "figure per page, page breaks exactly between figures, captions on exactly the selected pages; rtf_read_figure keeps path order; "
+                "_read_image_data reads the whole file in binary mode.",
+        "note": "bytes.hex, slicing, struct.unpack, open/read and Path.exists are assumed contracts.",
     },
     "C17": {
         "text": "For any number of inputs and any line contents: assemble_rtf checks existence before it opens anything, writes nothing for an empty "
@@ -648,7 +659,9 @@ MANIFEST_TEXT = {
     "C19": {
         "text": "For each validator under contract and each input shape (None, scalar, flat list, jagged nested list of any size) the real body "
                 "returns its input iff all elements are legal and otherwise raises a subclass of ValueError; any other exception class on any "
-                "path (e.g. AttributeError from a missing class attribute) is a violation.",
+                "path (e.g. AttributeError from a missing class attribute) is a violation. Document rules: validate_column_names returns exactly for "
+                "a frame or a figure but not both, matching multi-section list lengths and grouping keys that are columns of their own section's frame; "
+                "validate_figure_data raises FileNotFoundError exactly when a listed file is missing.",
         "note": "Relies on pydantic invoking the validators; legal sets (border styles, fonts, justifications, colours) are read from the real "
                 "tables. Validators not yet under contract are listed in the evidence.",
     },
